@@ -560,6 +560,11 @@ func (s *sim) deliverPH(ph tmconsensus.ProposedHeader) []tmconsensus.HandlePropo
 		return nil
 	}
 	s.phLog = append(s.phLog, phLogEntry{Step: s.step, PH: ph, Res: res})
+	// precommits travelling inside the previous-commit proof are votes the validators cast
+	if h := ph.Header.Height; h > s.w.init {
+		pcp := ph.Header.PrevCommitProof
+		s.recordSigned(builtVote{Kind: 1, H: h - 1, R: pcp.Round, Set: s.setFor(h - 1), Proofs: pcp.Proofs})
+	}
 	return []tmconsensus.HandleProposedHeaderResult{res}
 }
 
